@@ -105,6 +105,10 @@ func TestVerifC10SM4(t *testing.T) {
 		asm := asm
 		withAsm(asm, func() {
 			pn := pathName(asm)
+			otherKey := rng.Bytes(16)
+			otherAEAD, _ := newAEAD(otherKey, 12, 16)
+			otherLong, _ := newAEAD(otherKey, 130, 16)
+			otherMsg := rng.Bytes(300)
 			for ci, c := range cases {
 				if !hk.InShard(ci) {
 					continue
@@ -123,9 +127,21 @@ func TestVerifC10SM4(t *testing.T) {
 						r.Violation(fmt.Sprintf("%s-modifies-input:%s:%s", op, pn, shape), c.detail())
 					}
 				}
+				// "repeating a call on the same buffers gives the same answer" - also when the library did other work in
+				// between: a sealing and an opening under another key, long enough to run every kernel and the
+				// 4-way GHASH (state left in vector registers or scratch must not leak into the next call)
+				interfere := func() {
+					on := rng.Bytes(12)
+					ct := otherAEAD.Seal(nil, on, otherMsg, otherMsg[:130])
+					otherAEAD.Open(nil, on, ct, otherMsg[:130])
+					otherLong.Seal(nil, otherMsg[:130], otherMsg[:40], nil)
+				}
 				for _, sh := range dstShapes {
 					// ---------------- Seal
 					for rep := 0; rep < 2; rep++ {
+						if rep == 1 {
+							interfere() // unrelated work under ANOTHER key between the two identical calls
+						}
 						dst, backing := makeDst(sh, len(sealed), rng)
 						prefix := append([]byte{}, dst...)
 						var snapshot []byte
@@ -158,6 +174,9 @@ func TestVerifC10SM4(t *testing.T) {
 					}
 					// ---------------- Open
 					for rep := 0; rep < 2; rep++ {
+						if rep == 1 {
+							interfere() // unrelated work under ANOTHER key between the two identical calls
+						}
 						dst, backing := makeDst(sh, len(c.pt), rng)
 						prefix := append([]byte{}, dst...)
 						var snapshot []byte
@@ -271,7 +290,11 @@ func TestVerifC10SM4(t *testing.T) {
 				}
 				// ---------------- in-place idioms
 				{
-					buf := make([]byte, len(c.pt), len(c.pt)+c.tag+rng.Intn(3))
+					// the buffer lives inside a larger array: the bytes behind the result beyond the capacity
+					// handed over are canaries (spare capacity itself is the callee's to use)
+					room := len(c.pt) + c.tag + rng.Intn(3)
+					backing := bytes.Repeat([]byte{0xEE}, room+24)
+					buf := backing[:len(c.pt):room]
 					copy(buf, c.pt)
 					var out []byte
 					p, msg, _, _ := hk.Try(func() { out = a.Seal(buf[:0], gNonce.B, buf, gAad.B) })
@@ -282,6 +305,13 @@ func TestVerifC10SM4(t *testing.T) {
 					} else if !bytes.Equal(out, sealed) {
 						d["got"] = hk.Hex(out)
 						r.Violation("seal-inplace-wrong:"+pn, d)
+					}
+					for i := room; i < len(backing); i++ { // beyond the capacity handed over: nobody's but the caller's
+						if backing[i] != 0xEE {
+							d["offset_behind_capacity"] = i - room
+							r.Violation("seal-inplace-writes-behind-the-capacity-of-dst:"+pn, d)
+							break
+						}
 					}
 					ct := append([]byte{}, sealed...)
 					var pt []byte
